@@ -675,6 +675,15 @@ func WildcardPattern(sys semver.System) *rapid.Generator[string] {
 			parts[n-1] = wild
 		}
 		s := strings.Join(parts, ".")
+		if sys == semver.PyPI {
+			// PEP 440 patterns are written with "*" only (==1.2.*); an epoch
+			// may precede the numbers.
+			s = strings.NewReplacer("x", "*", "X", "*").Replace(s)
+			if rapid.IntRange(0, 3).Draw(t, "epoch") == 0 {
+				s = rapid.SampledFrom([]string{"1!", "0!", "2!"}).Draw(t, "ep") + s
+			}
+			return s
+		}
 		if sys == semver.NuGet {
 			switch rapid.IntRange(0, 7).Draw(t, "nugetpre") {
 			case 0:
